@@ -115,7 +115,8 @@ func TestC08Worker(t *testing.T) {
 		i0 := instrCount()
 		bytecode.VerifStepLimit.Store(i0 + c08StepBudget)
 
-		res := egorun.Run(p.Ego, progConfig(p))
+		// names carrying the marker are made unique to this execution (cold conformance cache)
+		res := egorun.Run(strings.ReplaceAll(p.Ego, uniqMarker, fmt.Sprintf("U%dr%d_", run.Prog, i)), progConfig(p))
 
 		wd.Stop()
 		bytecode.VerifYieldDensity.Store(0)
@@ -528,6 +529,7 @@ func TestC08(t *testing.T) {
 			r.Count("goroutines.launched", int64(p.Goroutines))
 			r.Max("goroutines.max_per_program", int64(p.Goroutines))
 			r.Count(fmt.Sprintf("density:%d", run.Density), 1)
+			r.Count("types:"+p.Types, 1)
 
 			if rc.Yields > 0 {
 				patterns[fmt.Sprintf("%d/%d", run.Density, run.Seed)] = true
